@@ -162,7 +162,9 @@ UNIT_SIZE = {'unknown-attrs': 4, 'unknown-attrs-extlen': 5, 'many-nlri': 4, 'man
 def plan(tier, seed):
     n = 16 if tier == 'quick' else 64
     # every fourth shard runs with every log call evaluating its lazy message (debug logging): formatters are code too
-    return [{'shard': i, 'inputs': 1500 if tier == 'quick' else 30000, 'loud': i % 4 == 3} for i in range(n)]
+    out = [{'shard': i, 'inputs': 1500 if tier == 'quick' else 30000, 'loud': i % 4 == 3} for i in range(n)]
+    out += [{'shard': 900 + i, 'daemon': True, 'part': i, 'inputs': 150 if tier == 'quick' else 1500} for i in range(4 if tier == 'quick' else 8)]
+    return out
 
 
 LOUD = False
@@ -222,7 +224,132 @@ def run_one(res, sensor, mtype, body, nb, neg, cls, sk, must_decode, wit_extra=N
     return outcome, steps, depth
 
 
+def run_daemon(desc):
+    """hostile messages sent to the REAL daemon over TCP.  What is observable from outside: the process stays alive, it says
+    nothing about an unhandled exception on its log, it never answers with the NOTIFICATION Protocol.read_message builds from
+    an exception which escaped a decoder (1/0 'can not decode ...'), it comes back for a new session after each reset, and every
+    line its helper process receives is one JSON document"""
+    import time
+
+    from vlib import daemon, norm
+
+    res = Result()
+    r = random.Random(desc['seed'] * 15487469 % (2**31) + desc['part'])
+    qa = corpus.qa_messages()
+    asn4 = desc['part'] % 2 == 0
+    text = 'process sink {\n    run @PY@ @DIR@/sink.py @DIR@/events;\n    encoder json;\n}\n' + corpus.all_families_text(
+        las=65000, pas=65001, asn4=True, addpath=3 if desc['part'] % 4 >= 2 else 0, adj_rib_in=True, extra='api { processes [ sink ]; neighbor-changes; receive { parsed; update; notification; open; refresh; operational; } }'
+    )
+    d = daemon.Daemon(text, env={'exabgp_log_level': 'ERROR'})
+    peer = None
+    marker_n = 0
+    sessions = 0
+    try:
+        d.start()
+        for i in range(desc['inputs']):
+            if peer is None:
+                peer = d.accept(timeout=60)
+                open_info = peer.establish(65001, peer_asn4=asn4)
+                sessions += 1
+                ap = desc['part'] % 4 >= 2
+            # ---- one hostile message
+            t = r.random()
+            if t < 0.35 and qa:
+                m = r.choice(qa)
+                mtype, body = m['type'], gw.mutate(r, m['body'], r.choice([1, 1, 2, 3]))
+                cls = 'mutated-qa'
+            elif t < 0.65:
+                mtype, body = 2, gw.gen_structured(r, asn4)
+                cls = 'structured'
+            elif t < 0.85:
+                s_ = {'asn4': asn4, 'addpath': {(1, 1), (2, 1), (1, 4), (2, 4), (1, 128), (2, 128)} if ap else set(), 'ibgp': False}
+                body, _ = gw.gen_update(r, s_, families=FAMS, rich=0.7)
+                mtype, body = 2, gw.mutate(r, body, r.choice([1, 2, 3]))
+                cls = 'mutated-valid'
+            elif t < 0.93:
+                mtype = r.choice([5, 6, 6, 0, 7, 255])
+                body = bytes(r.getrandbits(8) for _ in range(r.choice([0, 1, 3, 4, 5, 12, 64])))
+                cls = 'other-types'
+            else:
+                n = r.choice([0, 1, 4, 10, 23, 64, 300])
+                body = bytes(r.getrandbits(8) for _ in range(n))
+                mtype = 2
+                cls = 'random'
+            if mtype in (1, 3, 4):
+                continue  # an OPEN, a NOTIFICATION or a KEEPALIVE in ESTABLISHED are FSM matters (C05, C10)
+            if len(body) > 4096 - 19:
+                body = body[: 4096 - 19]
+            wit = {'type': mtype, 'body': body.hex()[:4000], 'class': cls, 'asn4': asn4, 'level': 'daemon'}
+            try:
+                peer.send(mtype, body)
+                marker_n += 1
+                mark = '203.0.%d.%d' % (marker_n // 256 % 256, marker_n % 256)
+                peer.send(2, rw.enc_update_body(b'', rw.enc_attr(0x40, 1, b'\x00') + rw.enc_attr(0x40, 2, bytes([2, 1]) + (struct.pack('!L', 65001) if asn4 else struct.pack('!H', 65001))) + rw.enc_attr(0x40, 3, bytes([192, 0, 2, 1])), (struct.pack('!L', 1) if ap else b'') + bytes([32]) + bytes(int(x) for x in mark.split('.'))))
+            except OSError:
+                pass
+            # ---- what happened: the marker reaches the helper (the session went on) or the session ends
+            end = time.monotonic() + 40
+            outcome = None
+            while outcome is None:
+                ty, b = peer.read_message(0.03)
+                if ty == 3:
+                    outcome = ('notification', b[0], b[1], bytes(b[2:]))
+                elif ty is None:
+                    outcome = ('closed',)
+                elif ty == 'timeout':
+                    if any(mark + '/32' in x for x in d.lines('events')[-6:]):
+                        outcome = ('continues',)
+                    elif not d.alive():
+                        outcome = ('died',)
+                    elif time.monotonic() > end:
+                        raise daemon.Inconclusive('neither the marker nor the end of the session within 40 s: ' + d.tail(300))
+            log = d.tail(4000)
+            if outcome[0] == 'died' or not d.alive():
+                res.violation(f'C03/daemon:process-exits:{cls}', f'the daemon exited (rc {d.proc.poll()}) after a hostile message', dict(wit, log=log[-1500:]), 'daemon:' + cls)
+                return res
+            if 'exception.unhandled' in log or 'Traceback' in log:
+                k = log.find('exception.unhandled')
+                res.violation(f'C03/daemon:unhandled-exception:{cls}', 'the daemon logged an unhandled exception: ' + log[max(0, k) : k + 300], dict(wit, log=log[-2500:]), 'daemon:' + cls)
+                return res
+            if outcome[0] == 'notification' and (outcome[1], outcome[2]) == (1, 0) and b'can not decode' in outcome[3]:
+                res.violation(f'C03/daemon:decoder-exception-escaped:type-{mtype}', f'NOTIFICATION 1/0 {outcome[3][:80]!r}: an exception other than Notify left Message.unpack', wit, 'daemon:' + cls)
+            else:
+                res.ok('daemon:' + cls, ('daemon', cls, outcome[0], outcome[1:3] if outcome[0] == 'notification' else ()))
+                res.count('daemon-outcome:' + (outcome[0] if outcome[0] != 'notification' else f'notification-{outcome[1]}/{outcome[2]}'))
+            if outcome[0] != 'continues':
+                peer.close()
+                peer = None
+        # ---- every line the helper got is one JSON document (C13 over the real pipe)
+        bad = 0
+        lines = d.lines('events')
+        for ln in lines:
+            try:
+                norm.strict_loads(ln)
+            except Exception as e:  # noqa
+                bad += 1
+                res.violation(f'C03/daemon:helper-line-not-json:{type(e).__name__}', f'a line written to the helper is not one JSON document: {ln[:200]}', {'line': ln[:2000]}, 'daemon:helper-lines')
+                break
+        if not bad and lines:
+            res.ok('daemon:helper-lines', None, len(lines))
+        res.extra['daemon_sessions'] = [sessions]
+    except daemon.Inconclusive as e:
+        if not d.alive() and d.proc is not None:
+            res.violation('C03/daemon:process-exits:unknown', f'the daemon exited (rc {d.proc.poll()}): {str(e)[:200]}', {'log': d.tail(2000)}, 'daemon')
+        else:
+            res.inconclusive.append('daemon: ' + str(e)[:400])
+    finally:
+        try:
+            if peer is not None:
+                peer.close()
+        except Exception:  # noqa
+            pass
+        d.stop()
+    return res
+
+
 def run_shard(desc):
+    if desc.get('daemon'):
+        return run_daemon(desc)
     res = Result()
     global LOUD
     if desc.get('loud'):
